@@ -142,8 +142,8 @@ func RunOne(c *core.Ctx, bin string, sc *Scenario, root string, chk *Checker, o 
 	out.Panicked = strings.Contains(r.Stderr, "panic:") || strings.Contains(r.Stderr, "goroutine ") || strings.Contains(r.Stderr, "fatal error:")
 	out.Changed = []string{}
 	for _, p := range DiffSnap(before, after) {
-		if filepath.Base(p) == "derived.gen.go" {
-			continue
+		if p == filepath.Join(sc.PkgDir, "derived.gen.go") {
+			continue // the one file a run may create, modify or delete
 		}
 		abs := filepath.Join(root, p)
 		out.Changed = append(out.Changed, abs)
